@@ -40,19 +40,19 @@ SPEC = {
     "jobs": _jobs,
     "floors": ({} if _only else {
         # sequential part (deterministic in seed and tier)
-        "promotions": (100, 2000), "evictions": (300, 6000), "limit_rejections": (300, 6000),
-        "sync_deferred_readded": (100, 2000), "blocks_while_syncing": (100, 2000),
-        "order_probes_asserted": (100, 2000), "order_probes_out_of_order": (50, 1000),
-        "epoch_changes": (20, 400), "priority_add:ok": (100, 2000), "offers_with_priority_tx": (200, 4000),
-        "resets_inside_sessions": (200, 4000), "resets_outside_sessions": (500, 10000),
-        "offers_with_pool_over_gas_cap": (5, 100), "blocks_built_elsewhere": (300, 6000),
-        "conflicting_tx_to_other_proposer": (100, 2000), "add_path:internal": (300, 6000), "add_path:batch": (300, 6000),
+        "promotions": (100, 1000), "evictions": (300, 3000), "limit_rejections": (300, 3000),
+        "sync_deferred_readded": (100, 1000), "blocks_while_syncing": (100, 1000),
+        "order_probes_asserted": (100, 1000), "order_probes_out_of_order": (50, 500),
+        "epoch_changes": (20, 200), "priority_add:ok": (100, 1000), "offers_with_priority_tx": (200, 2000),
+        "resets_inside_sessions": (200, 2000), "resets_outside_sessions": (500, 5000),
+        "offers_with_pool_over_gas_cap": (2, 50), "blocks_built_elsewhere": (300, 3000),
+        "conflicting_tx_to_other_proposer": (100, 1000), "add_path:internal": (300, 3000), "add_path:batch": (300, 3000),
         # concurrent part (schedule dependent; far below what is normally observed)
-        "race_detector_runs": (8, 12), "conc_runs": (12, 300), "interleaving_signatures": (50, 500),
-        "conc_overlapping_bursts": (1000, 20000), "conc_removals_reported": (300, 6000), "conc_sync_windows": (5, 100),
-        "conc_adds_in_sync_window": (100, 2000), "conc_point_hits": (10000, 200000), "conc_offers_checked": (200, 5000),
-        "conc_blocks_in_period_2": (3, 60), "conc_blocks_in_period_3": (3, 60), "conc_epoch_changes": (4, 100),
-        "conc_add_ok": (1000, 20000), "conc_add_dup": (1000, 20000), "conc_get_t": (1000, 20000), "conc_get_f": (1000, 20000),
+        "race_detector_runs": (8, 12), "conc_runs": (12, 150), "interleaving_signatures": (50, 500),
+        "conc_overlapping_bursts": (1000, 10000), "conc_removals_reported": (300, 3000), "conc_sync_windows": (5, 50),
+        "conc_adds_in_sync_window": (100, 1000), "conc_point_hits": (10000, 100000), "conc_offers_checked": (200, 2000),
+        "conc_blocks_in_period_2": (3, 30), "conc_blocks_in_period_3": (3, 30), "conc_epoch_changes": (4, 40),
+        "conc_add_ok": (1000, 10000), "conc_add_dup": (1000, 10000), "conc_get_t": (1000, 10000), "conc_get_f": (1000, 10000),
     }),
     "parallel": 16,
     "assumptions": ["consensus config V12", "epoch results come from the synthetic epoch function",
